@@ -38,6 +38,58 @@ CLAIMED = {
          "testing/fstest.MapFS and io/fs helpers are trusted; paths deeper than two components, symlinks and layers that fail with errors other than not-exist are not explored.",
          "reference-model monitor over an exhaustively enumerated bounded configuration space (runtime differential check)", "4/C18"),
 }
+
+CLAIMED.update({
+ "C04": ("exploration",
+         "Loop nests of depth 1-3 are generated as a case description from which both the template and the expected marker tree are derived; a reference interpreter in the check iterates the described items with its own scope model. Every name (item, index, outer loop variables, an unshadowed root name) is read through probe elements in five read positions ({{ }}, interpolated attribute, :attr, expression, v-if) before, inside, at the end of and after each loop and in the v-else branch. Depth-1 grid over 95 collection variants (22 sequence kinds x lengths 0-3, nil, missing) x 27 shadowing name pairs x 3 root kinds x else/if/shape options is exhaustive in the thorough tier; deeper nests are seeded.",
+         "x/net/html re-parse trusted; a v-else separated from the loop by another element, maps/strings/numbers as collections (crash-only) and bound attributes on looped <template> are not judged.",
+         "reference-interpreter monitor over enumerated + seeded loop programs (marker oracle on re-parsed output)", "4/C04"),
+ "C05": ("exploration",
+         "Include trees (depth<=3, fan-out<=3) are rendered by the real engine; every file prints a 4-name universe before its first include and again after every include, each print carrying JSON value, Go type (| type) and text. A scope calculus in the check (includer env + props + component front-matter, fresh scope per instance) predicts the exact marker sequence; :required must fail, naming the variable, iff a required name is absent from the merged environment; every shorthand render is compared byte for byte with the equivalent <template include> render. Prop-form grid, 64 typed values and multi-instance combinations are exhaustive, trees seeded.",
+         "'provided' is read as 'visible to the component'; a required name bound to nil and YAML type decoding of front-matter are not judged.",
+         "reference scope-calculus monitor + differential (shorthand vs include) over enumerated + seeded include trees", "4/C05"),
+ "C06": ("exploration",
+         "Template sets are described by a small AST (elements, v-if/v-for, includes with supplied content, slots), printed to vuego source and rendered through Template.Render, Vue.Render and RenderString; the same AST is evaluated by a reference model of the statement (content evaluated in the includer's environment plus the slot's props, fallback exactly when nothing was supplied, one slot scope per include tag). Every slot is wrapped in a marker element and both outputs are compared node by node. All single-instance combinations of slot sets, fallbacks, scoped props and 9x7x7 supply forms are exhaustive; multi-instance, loops, nesting to depth 3, layout-inherited slots and pass-through slots are enumerated or seeded.",
+         "a slot template without a declared variable, explicit <slot name=default>, duplicate supplies and v-slot mixed with plain children are not judged.",
+         "reference-model monitor over an AST-described program space (marker oracle, node-by-node diff)", "4/C06"),
+ "C07": ("exploration",
+         "Each case is a small file tree with page, layouts, Fill data and front-matter rendered through Load().Fill().Render and RenderFile; an independent resolver predicts the chain (page first, default base only when due, relative before layouts/, cycle and missing-target errors) and the check asserts one marker nest with the page innermost, nothing written on error, page data visible in every layer, and at most limit+2 layout-loop iterations counted at an engine hook. The pruned graph space over 6 files x 7 layout options, chains of every length 1-102 and 150, cycles of length 1-4 entered after 0-3 links and all key-collision subsets are exhaustive; random trees are seeded.",
+         "a chain of exactly 100 layouts is accepted either way; ambiguous .vuego resolution and layout-defined front-matter keys are not judged.",
+         "reference-resolver monitor over an exhaustively enumerated bounded file-graph space + logical step bound at a hook", "4/C07"),
+ "C08": ("exploration",
+         "A case is a small program over the public API (constructor, theme.yml, data/*.yml, files with front-matter, Fill/Assign/New/Load/Render/Get calls) executed on the real engine and on an independent reference model of the template tree in parallel; every key is read as {{ }}, interpolated attribute, v-text, :attr, expression and v-if and through Template.Get. The 2^5 presence matrix x Fill/Assign orders x value types x data shapes (map, struct by tag / field name / untagged, pointer) x 7 entry points, all data-file subsets and all call histories of length <=3 (quick) / <=4 (thorough) are exhaustive; longer histories are seeded.",
+         "keys a later Fill omits, inherited front-matter and front-matter under RenderString are weakly judged as stated in the check's assumptions.",
+         "reference-model monitor over exhaustive precedence matrix + enumerated/seeded API histories", "4/C08"),
+ "C12": ("fault_enumeration",
+         "An instrumented io.Writer logs every Write (offset, length, accepted bytes, injected error) and fails at a chosen offset in six ways (sticky or once; accepting a prefix, nothing or everything). Every entry point (Load().Render with no/default/explicit/chained layout, RenderFile, RenderString, RenderByte, RenderReader) x 9 succeeding and ~45 failing programs (failure early/late, in attribute, loop, include, slot, layout, reader, node processor, context cancelled before or during the call) is run; every program that returns nil gets every writer behaviour at every offset 0..len(document) (thorough: every byte offset; quick: one offset per observed Write for the two behaviours where that is equivalent). Conservation check: error and healthy writer => 0 bytes; nil => exactly the reference document; writer failure => non-nil error.",
+         "which error is returned and what a failed writer holds are not judged; writers violating the io.Writer contract are not generated.",
+         "fault injection at every writer offset + conservation check over the recorded write log", "4/C12"),
+ "C13": ("exploration",
+         "Typed expression trees (every operator x operand-type signature at depth 1, every operator pair at depth 2, seeded deeper trees, 4 surface styles kept apart) are rendered in seven positions ({{ }}, interpolated and bound attributes, v-bind, v-if, v-else-if, v-show) over four typed environments and compared with an independent typed interpreter in the check; every filter chain of length 1-2 (3 in thorough) over 31 filter forms, every parameter-kind x argument-kind pairing, 34 quoting variants and the error contract (unknown function, arity, conversion, function error must fail the render naming the function) are enumerated; 42 documentation examples are replayed.",
+         "debatable arithmetic (integer division with remainder, % on negatives, mixed int/float equality, cross-type comparison) and undocumented conversions are not judged.",
+         "reference-interpreter monitor over enumerated + seeded expression trees and filter chains", "4/C13"),
+ "C14": ("exploration",
+         "One element carrying 1-6 attribute specs (static, interpolated, : / v-bind: bound, class object, style object, v-show, bracketed, every directive) drawn from a 70-atom vocabulary is rendered inside marker siblings, also as a conditional-chain member and inside v-for; a reference model computes the expected attribute set: generic attributes exact, class as ordered token list, style as property map with bound overriding static and display:none iff v-show is falsy, bracketed attributes unwrapped with the raw value, no directive in the output, static order kept. All 1- and 2-sequences (and all 343k triples in thorough) are enumerated, longer ones seeded over every Go value kind.",
+         "style-object values that are empty/nil/bool or contain ';', two bound class/style attributes and elements under v-pre are not judged or not generated.",
+         "reference-model monitor over enumerated attribute combinations (attribute-set oracle on re-parsed output)", "4/C14"),
+ "C16": ("exploration",
+         "Cases are an AST of placements (144 wrapper pairs over v-for, <template v-for>, v-if, includes of bare and <template>-rooted components, loops around includes, slots) x 12 payload arrangements of marked elements, rendered through seven entry points, each engine rendering P, Q, P (and P again in thorough); a reference model walks the AST with one seen-set per render unit (the page and each layout separately) and the number of occurrences of every unique marker in the parsed output must match.",
+         "a marked element is judged only when the unmarked witness beside it appears as often as the model says; v-once+v-for on one element tolerates one copy per iteration.",
+         "exactly-once checker over markers in the re-parsed output against a reference placement model", "4/C16"),
+ "C17": ("exploration",
+         "Every sequence of 4 (quick) / 5 (thorough) operations over an 11-letter alphabet (Push nil/map, Pop, Set, Copy and continue on either side) x 6 root configurations is executed on the real Stack and on a reference scope-list model; after every operation Lookup and EnvMap are compared for every name on every live stack, plus Resolve, the typed getters and ForEach once per prefix. Path resolution uses nested values built together with their table of valid steps (9 holder kinds around 31 terminals, depth <=2/3), every valid and invalid step in four spellings. A hook asserts that pooled scope maps are empty when handed out.",
+         "presence flag of a nil element, promoted fields by JSON tag and map[int]T keys are crash-only; unmatched Pop is never issued.",
+         "model-based monitor: reference scope-list model over exhaustive operation sequences + by-construction path tables + pool invariant hook", "4/C17"),
+ "C19": ("exploration",
+         "Format is run on every .vuego file and documentation html block of the repository (x5 option sets), on every string of <=4 tokens over hostile attribute/text token sets, on every parent x child-sequence structure of <=3 children, on doctype/front-matter combinations and on seeded generated documents; per case the check judges no error, Format(Format(x)) == Format(x), and equality of the parsed DOM of Format(x) and x (attributes value-by-value with whitespace collapsed, text with whitespace removed, pre content exact, mustache list), plus byte identity of front-matter and doctype.",
+         "x/net/html and html.Render trusted; no-break space and textarea/title whitespace are not judged; preservation is skipped when the source DOM is a parser-recovery artefact.",
+         "idempotence + DOM-preservation monitor over corpus, enumerated token strings and seeded documents", "4/C19"),
+ "C20": ("exploration",
+         "Markdown sources from a position x hazard-atom matrix (55 positions x 146 atoms), exhaustive structure families (lists, headings, tables with every alignment vector, inline nesting, container x block, break kinds, all block-kind pairs), a seeded grammar and random/mutated bytes are rendered through the default templates and compared node by node with goldmark's own HTML renderer on the same source; every subset model of overridden templates (each single one, all pairs, seeded subsets) must affect exactly the corresponding construct; no document may fail or panic.",
+         "the goldmark parser is shared with the reference, so parser bugs are invisible; documents whose raw HTML leaves elements open are judged for no-failure only.",
+         "differential monitor against goldmark's reference renderer (DOM diff with classifier) + override placement model", "4/C20"),
+})
+
 NOT_YET = "check not built yet in this round (work in progress; see DESIGN.md section 8)"
 def hooks_commits():
     try:
